@@ -3,6 +3,7 @@
 From Coq Require Import ZArith NArith List Bool Reals Floats.
 From PV Require Import Num NumR model.Optimiser model.OptSpec proofs.OptStruct proofs.OptLoop proofs.FloatFacts proofs.RealFacts.
 From PV Require Import gen.GenFns model.Iter model.Pipeline proofs.ListLemmas proofs.SrcOpt.
+From PV Require Import proofs.SourceHeadlinesOpt.
 
 Theorem C06_fin_frozen :
   forall (NN : Num) (fexp : carrier NN -> carrier NN) (score : N -> list (carrier NN) -> option
@@ -93,4 +94,21 @@ Theorem C06_optimiser_source_translated :
     translated_gen_set_sampled = true.
 Proof. exact optimiser_source_translated. Qed.
 Print Assumptions C06_optimiser_source_translated.
+
+
+Theorem C06_source_result_is_last_accepted :
+  forall (NN : Num) (fexp : carrier NN -> carrier NN) (score : N -> list (carrier NN) -> option
+    (carrier NN)) (c : cfg NN) (draws : list (draw NN)) (st : ost NN), let st' := fold_left
+    (src_advance NN fexp score c) draws st in params NN st' = last (map fst (accepts NN fexp
+    score c st draws)) (params NN st) /\ score_cur NN st' = last (map snd (accepts NN fexp score
+    c st draws)) (score_cur NN st).
+Proof. exact source_result_is_last_accepted. Qed.
+Print Assumptions C06_source_result_is_last_accepted.
+
+Theorem S_optimise_state_is_the_source_pieces :
+  forall (NN : Num) (fexp : carrier NN -> carrier NN) (score : N -> list (carrier NN) -> option
+    (carrier NN)) (c : cfg NN) (ps : list (carrier NN)) (hs : list (handle NN)) (draws : list
+    (draw NN)), optimise NN fexp score c ps hs draws = src_optimise NN fexp score c ps hs draws.
+Proof. exact optimise_state_is_the_source_pieces. Qed.
+Print Assumptions S_optimise_state_is_the_source_pieces.
 
